@@ -355,6 +355,8 @@ def gen_request(rng, w, p, names):
         props = {"name": name, "signum": rng.choice([SIGHUP, SIGUSR1, "usr2", SIGTERM, SIGKILL, "int"])}
         if rng.random() < p.get("sigkill", 0.0):
             props["signum"] = rng.choice([SIGKILL, "kill", "SIGKILL", "9"])
+        elif rng.random() < p.get("sigstop", 0.0):
+            props["signum"] = rng.choice([int(_signal.SIGSTOP), "stop", "SIGTSTP", "tstp", "SIGSTOP", "cont"])   # job control
         elif rng.random() < p.get("sigsoft", 0.0):
             props["signum"] = rng.choice([0, int(_signal.SIGWINCH), "chld", "SIGURG"])   # nobody dies of these
         if rng.random() < 0.5:
